@@ -40,7 +40,7 @@ Theorem C07_reuse : forall maxc r1 disc code w1 x w' p2 r3 w2 ep,
   | inl rp => wlog w' = wlog w1 ++ total /\ keep /\ into_request_parser (close_p4 r3) = ConvOk rp
   | inr k =>
       (wlog w' = wlog w1 ++ total /\ k = EK_Reset /\ ~ keep) \/
-      ((k = EK_WriteZero \/ k = EK_Transport) /\ ~ no_fault (wscript w2) /\
+      ((k = EK_WriteZero \/ k = EK_Transport \/ k = EK_Aborted) /\ ~ no_fault (wscript w2) /\
        exists b1 b2, total = b1 ++ b2 /\ b2 <> [] /\ wlog w' = wlog w1 ++ b1)
   end.
 Proof. exact close_reuse_iff. Qed.
